@@ -56,6 +56,10 @@ CONSTANTS Shape,       \* "par2" | "par3" | "seq" | "nest" | "nestdup" | "sbr" |
           LateFlag,    \* seeded variant of runner.run: `haveOnStart = true` only after the fresh-start block (see EndR)
           KeepScope,   \* seeded variant of InitCallbacks: without handlers and globals the context is returned unchanged (see DetInit)
           ExtractFirst,\* seeded variant of runner.run: extractOption in front of the deferred start/end pairing (see Rejected)
+          AllowDv,     \* TRUE: the case has a DERIVED callbacks option "dv": base := WithCallbacks(dv) designated stepwise to 1..4 nodes,
+                       \* then two siblings first := base.DesignateNode(x), second := base.DesignateNode(y); one of them is passed to the call
+          ShareBase,   \* seeded variant of Option.DesignateNodeWithPath (= old D11): o.paths = append(o.paths, path...) without the copy, so
+                       \* the siblings share the base's backing array and the later derivation overwrites the earlier one's entry
           NestedOnce,  \* TRUE = proposed repair (fixes/D20-nested-designation-repeated.diff): extractOption forwards a repeated nested path of a
                        \* callbacks-only option once; FALSE = as coded: one deep copy per occurrence, the handler is attached twice inside
           NoBreak,     \* seeded variant of initNodeCallbacks: no `break` after the first path of an option that names the node (see DChunks)
@@ -135,8 +139,28 @@ BadOpts == {"none"} \cup (IF Shape \in {"par2", "nest", "nestdup"} THEN {"t1", "
                     \cup (IF Shape \in {"nest", "nestdup"} THEN {"s1", "s2"} ELSE {})
 BadPath(b) == CASE b = "t1" -> <<"zz">> [] b = "t2" -> <<UR("a").path[1], "x">> [] b = "s1" -> <<"sub", "zz">> [] b = "s2" -> <<"sub", "s1", "x">>
 RejectG(c) == IF c.badopt \in {"t1", "t2"} THEN "top" ELSE IF c.badopt \in {"s1", "s2"} THEN "sub" ELSE ""
-Configs == {c \in [ng : 0..MaxGlobal, split : Splits, dopts : DSeqs, fail : FailSet, bsel : BSels, badopt : BadOpts] :
-              c.fail # "none" => c.bsel = "node" /\ c.badopt = "none"}
+\* derived callbacks option: base = the first k entries of the cyclic list of designatable paths, own entries x # y, and which sibling is used
+PSeq == SelectSeq([i \in 1..Len(UnitSeq) |-> UnitSeq[i].path], LAMBDA p : p \in DPaths)
+NoDv == [k |-> 0, x |-> <<>>, y |-> <<>>, use |-> "none"]
+\* (the base names the first designatable node k times -- a node named repeatedly at the top level gets the handler once --, so that
+\* the siblings' own entries x, y are the only designations of THEIR nodes and a mix-up is observable)
+DvSet == {NoDv} \cup (IF AllowDv THEN {d \in [k : 1..4, x : DPaths \ {PSeq[1]}, y : DPaths \ {PSeq[1]}, use : {"first", "second"}] : d.x # d.y} ELSE {})
+DvBase(d) == [i \in 1..d.k |-> PSeq[1]]
+\* the designation list of the sibling that is passed to the call, computed on Go slices of *NodePath (8-byte elements):
+\*   DesignateNodeWithPath as coded: fresh slice of len(o.paths)+len(path), copy, append;  ShareBase: append onto the base's array
+DvPaths(d) ==
+  LET b0 == AppendEach(EmptyHeap, NilSlice, [i \in 1..d.k |-> <<DvBase(d)[i]>>], 1, 8)        \* ShareBase grows 1 -> 2 -> 4; the copy variant has len = cap anyway
+      b  == IF ShareBase THEN b0 ELSE CopyAppend(b0.h, b0.s, <<>>, b0.na)
+      f  == IF ShareBase THEN GoAppend(b.h, b.s, <<d.x>>, b.na, 8) ELSE CopyAppend(b.h, b.s, <<d.x>>, b.na)
+      g  == IF ShareBase THEN GoAppend(f.h, b.s, <<d.y>>, f.na, 8) ELSE CopyAppend(f.h, b.s, <<d.y>>, f.na)
+  IN IF d.use = "first" THEN View(g.h, f.s) ELSE View(g.h, g.s)
+DvIntended(d) == DvBase(d) \o <<IF d.use = "first" THEN d.x ELSE d.y>>
+Configs == {c \in [ng : 0..MaxGlobal, split : Splits, dopts : DSeqs, fail : FailSet, bsel : BSels, badopt : BadOpts, dv : DvSet] :
+              /\ c.fail # "none" => c.bsel = "node" /\ c.badopt = "none"
+              /\ c.dv.k > 0 => c.badopt = "none" /\ c.fail = "none"}
+\* all designated options the run sees: [id, paths (as the library reads them)]
+AllD(c) == [i \in 1..Len(c.dopts) |-> [id |-> "d" \o ToString(i), paths |-> c.dopts[i]]]
+           \o (IF c.dv.k = 0 THEN <<>> ELSE <<[id |-> "dv", paths |-> DvPaths(c.dv)]>>)
 
 GId(i) == "G" \o ToString(i)
 UId(i) == "g" \o ToString(i)
@@ -152,20 +176,23 @@ UChunks(split, from) == IF split = <<>> THEN <<>>
 \*              -> once per option however often the list names the node (NoBreak: once per occurrence)
 \*   nested:    extractOption forwards ONE deep copy per path of length > 1 (paths = [tail]), so the nested graph sees as many
 \*              options as the list has occurrences of the path, and each of them matches its key once
-Occ(c, i, id) == Cardinality({j \in 1..Len(c.dopts[i]) : c.dopts[i][j] = UR(id).path})
+Occ(c, i, id) == Cardinality({j \in 1..Len(AllD(c)[i].paths) : AllD(c)[i].paths[j] = UR(id).path})
 Times(c, i, id) == IF Occ(c, i, id) = 0 THEN 0
                    ELSE IF UR(id).parent = "top" THEN (IF NoBreak THEN Occ(c, i, id) ELSE 1)
                    ELSE IF NestedOnce /\ ~NoBreak THEN 1 ELSE Occ(c, i, id)
 RECURSIVE DChunksFrom(_, _, _)
-DChunksFrom(c, id, i) == IF i > Len(c.dopts) THEN <<>>
-                         ELSE [k \in 1..Times(c, i, id) |-> <<DId(i)>>] \o DChunksFrom(c, id, i + 1)
+DChunksFrom(c, id, i) == IF i > Len(AllD(c)) THEN <<>>
+                         ELSE [k \in 1..Times(c, i, id) |-> <<AllD(c)[i].id>>] \o DChunksFrom(c, id, i + 1)
 DChunks(c, id) == DChunksFrom(c, id, 1)
 CaseLine(c) ==
   [ev |-> "case", id |-> "m", shape |-> Shape,
    handlers |-> [i \in 1..c.ng |-> [id |-> GId(i), kind |-> "global", paths |-> <<>>]]
                 \o [i \in 1..Sum(c.split) |-> [id |-> UId(i), kind |-> "undes", paths |-> <<>>]]
                 \o [i \in 1..Len(c.dopts) |-> [id |-> DId(i), kind |-> "des", paths |-> c.dopts[i]]]
-                \o (IF c.badopt = "none" THEN <<>> ELSE <<[id |-> "dx", kind |-> "des", paths |-> <<BadPath(c.badopt)>>]>>),
+                \o (IF c.badopt = "none" THEN <<>> ELSE <<[id |-> "dx", kind |-> "des", paths |-> <<BadPath(c.badopt)>>]>>)
+                \* the derived option: `paths` = what the user's derivation means (value semantics); `derive` tells the harness how to build it
+                \o (IF c.dv.k = 0 THEN <<>> ELSE <<[id |-> "dv", kind |-> "des", paths |-> DvIntended(c.dv),
+                                                     derive |-> [base |-> DvBase(c.dv), x |-> c.dv.x, y |-> c.dv.y, use |-> c.dv.use]]>>),
    split |-> c.split, ng |-> c.ng, fail |-> c.fail, bsel |-> c.bsel, badopt |-> c.badopt,
    reject |-> IF RejectG(c) = "sub" THEN "sub" ELSE "", rejecttop |-> RejectG(c) = "top",
    units |-> UnitSeq, ends |-> IF c.bsel = "node" /\ RejectG(c) = "" THEN Ends ELSE <<>>]
